@@ -3,7 +3,10 @@
 # usage: ./mutcheck.sh <patch> C01 C02 ...
 patch=$1; shift
 cd /repo && git diff --quiet || { echo "repo dirty"; exit 2; }
-git -C /repo apply "$patch" || { echo "cannot apply"; exit 2; }
+# a patch written against an older /repo: fall back to a 3-way merge on the recorded blob ids
+git -C /repo apply "$patch" 2>/dev/null || git -C /repo apply --3way "$patch" >/dev/null 2>&1 || { git -C /repo checkout -q -- . ; git -C /repo reset -q --hard; echo "cannot apply"; exit 2; }
+git -C /repo diff --name-only --diff-filter=U | grep -q . && { git -C /repo reset -q --hard; echo "cannot apply (conflict)"; exit 2; }
+git -C /repo reset -q   # 3-way leaves the result staged
 (cd /repo && GOFLAGS=-mod=mod GOPROXY=off GOSUMDB=off GOTOOLCHAIN=local go build ./... ) || echo "BUILD FAILS"
 for p in "$@"; do (cd /verif && ./check $p | tail -2); done
 git -C /repo checkout -- .
